@@ -107,6 +107,7 @@ class SimLoop(asyncio.BaseEventLoop):
         super().__init__()
         self.clock = clock
         clock.now = start
+        clock.wall_offset = 1_600_000_000.0  # (a wall_clock_jump of an earlier run must not leak)
         self._serial = 0
         self._tseq = 0
         self.iters = 0
